@@ -121,4 +121,16 @@ def build(tier):
             if K == 5: continue
             obs.append(Ob('O4-iscapture-K%d@%d' % (K, j), us, 'h_iscapture', 'positions of up to %d men, the %s moves (ordinary steps): isCapture <=> destination occupied' % (K, who), unwind=65, param=j, core=True, timeout=1800, mem_gb=12,
                           backend='kissat', functions=['isCapture (textio.cpp:339-346)'], bounds='two kings + up to %d further men' % (K - 2)))
+    # ------------------------------------------------------------------ O5: the SAN writer proper (file-static moveToString) on symbolic positions
+    for K in ([4] if quick else [4]):
+        al = dict(GLIBCXX); al['_ZN7MoveGen10givesCheckERK8PositionRK4Move'] = 'model_givesCheck_off'
+        uw = Unit('sanw%d' % K, 'C17/sanw.cpp', ['h_san_writer'], defines={'NMEN': K}, clang_flags=['-D_GLIBCXX_ASSERTIONS'], aliases=al,
+                  allow_extern=ALLOW + [r'_ZN11NNEvaluator.*', r'_ZN6TextIO.*', r'_ZN7MoveGen.*', r'_Z.*ChessParseError.*', r'__cxa_\w+', r'_ZT[VI].*', r'_Z7num2Str.*', r'_Z9splitLines.*', r'_ZNSt.*', r'_ZNKSt.*', r'_ZSt.*'])
+        units.append(uw)
+        for par, txt in ((0, 'black to move, short form'), (1, 'white to move, short form'), (2, 'black to move, long form'), (3, 'white to move, long form')):
+            obs.append(Ob('O5-san-writer-K%d@%d' % (K, par), uw, 'h_san_writer', 'positions of up to %d men, %s: moveToString writes castling text exactly for castling moves, ends with the target square (+ promotion letter), '
+                          'and never gives two different moves of the move list the same text (file/rank disambiguation)' % (K, txt), unwind=65, param=par, core=False, timeout=1500, mem_gb=12, backend='kissat',
+                          functions=['moveToString (textio.cpp:361-443, file-static)', 'isCapture', 'TextIO::pieceToChar', 'libstdc++ basic_string operator+=/push_back/append (real, lowered)'],
+                          stubs=STUB_STR + ['MoveGen::givesCheck -> false (the check/mate suffix and the move generation behind # are outside)'],
+                          bounds='two kings + up to %d further men of any kind on any squares; any two different pseudo-legal moves of the side to move, both in the list handed to the writer' % (K - 2)))
     return units, obs
